@@ -33,7 +33,7 @@ import (
 
 const (
 	clsNotMonotone = "output clusters not monotone at a monotone cluster level (C05 / C01 matter, precondition of the statement)"
-	clsRefFails    = "reference also fails its own reconstruction (unsafe-to-break annotation imperfect upstream)"
+	keyAsUpstream  = "C18/as-upstream" // open known finding: the reference fails the same procedure on the same input
 	clsRefNoCuts   = "reference flags every boundary unsafe for this input (nothing to reconstruct on the reference)"
 )
 
@@ -194,10 +194,6 @@ func judge(p *c05.Pair, c *c05.Case, sk *c05.Skew) verdict {
 	if c.Len >= 0 && c.Off+c.Len < hi {
 		hi = c.Off + c.Len
 	}
-	if cls := c05.InputSkew(p, c, v.rs, v.cat, sk); cls != "" {
-		v.kind, v.class = "inconclusive", cls
-		return v
-	}
 	var panicked any
 	var where string
 	goShape := func(a, b, fl int) ([]c05.G, bool) {
@@ -241,6 +237,13 @@ func judge(p *c05.Pair, c *c05.Case, sk *c05.Skew) verdict {
 		v.kind = "held"
 		return v
 	}
+	// the library fails its own reconstruction. The reference is the arbiter of whether
+	// that is the port or upstream behaviour; on inputs where the two are known to differ
+	// for a reason outside the port (version skew, DESIGN §7) it cannot arbitrate.
+	if cls := c05.InputSkew(p, c, v.rs, v.cat, sk); cls != "" {
+		v.kind, v.class = "inconclusive", cls
+		return v
+	}
 	// the Go side fails: what does the reference do on the same input?
 	cShape := func(a, b, fl int) ([]c05.G, bool) { return p.ShapeCRange(c, v.rs, a, b, fl) }
 	cwhole, cok := cShape(lo, hi, c.Flags)
@@ -249,9 +252,16 @@ func judge(p *c05.Pair, c *c05.Case, sk *c05.Skew) verdict {
 		return v
 	}
 	crecon, csafe, _, crok := reconstruct(cwhole, backward, lo, hi, c.Flags, cShape)
-	if !crok || !c05.Equal(crecon, cwhole) {
-		v.kind, v.class = "inconclusive", clsRefFails
+	asUpstream := func(what string) verdict {
+		// the library violates the statement and so does the reference, by the same
+		// procedure on the same input: open known finding, the reference is the prediction
+		v.kind, v.key = "violated", keyAsUpstream
+		v.msg = fmt.Sprintf("%s; libharfbuzz %s fails the same procedure on the same input: font=%s#%d text=%s item=[%d,%d) %s\n  whole: %s\n  C    : %s",
+			what, sk.HBVersion, c.Font, c.Index, c05.U(c.Text), lo, hi, c.Settings(), fmtFlags(whole), fmtFlags(cwhole))
 		return v
+	}
+	if !crok || !c05.Equal(crecon, cwhole) {
+		return asUpstream("reconstruction from the pieces cut at the boundaries not flagged unsafe-to-break differs from the whole shaping")
 	}
 	if allOK && failT >= 0 {
 		// a single cut fails on the Go side. The reference does not show the
@@ -261,8 +271,7 @@ func judge(p *c05.Pair, c *c05.Case, sk *c05.Skew) verdict {
 		if claimsSafe(cwhole, backward, failT) {
 			cr, ok := cutAt(backward, lo, hi, failT, c.Flags, cShape)
 			if !ok || !c05.Equal(cr, cwhole) {
-				v.kind, v.class = "inconclusive", clsRefFails
-				return v
+				return asUpstream(fmt.Sprintf("single cut at text position %d differs from the whole shaping", failT))
 			}
 			refSays = "the reference declares the same boundary safe and passes the same cut"
 		}
@@ -282,8 +291,7 @@ func judge(p *c05.Pair, c *c05.Case, sk *c05.Skew) verdict {
 		what = "fragment could not be cut (cluster values outside the item or not increasing)"
 	} else if c05.Equal(recon, whole) && !goUniform {
 		if !uniformFlags(cwhole) {
-			v.kind, v.class = "inconclusive", clsRefFails
-			return v
+			return asUpstream("unsafe-to-break flag not uniform within a cluster")
 		}
 		what = "unsafe-to-break flag not uniform within a cluster"
 	} else if csafe == 0 && safe > 0 && !c05.Equal(cwhole, whole) {
